@@ -189,6 +189,7 @@ ADD7 = {
  "C11": "x[len(x)-k] indexing needs len(x) >= k (strings.Split results are never empty, strings.Fields* results can be); every loop on the externally reachable paths is a range loop, a counted loop, or consumes an input stream / waits for an event (65 today; anything else must be in a reviewed table, which is empty).",
  "C12": "the station applies the response's transport parameters whenever they are present and the client allows overrides - no other condition (the address family being built) decides it.",
  "C13": "from the ReloadSubnets call in the SIGHUP handler every path leads back to the receive from the signal channel (no return / exit of the handler goroutine after a failed reload); ReloadSubnets itself contains no channel operation, select or wait.",
+ "C14": "where a SubnetFilter is applied, the selection routine receives the filter's result; the unfiltered list only on the filter == nil edge.",
  "C15": "the tag obfuscators' key search ends only with a key for which ScalarBaseMult reported a representative (helper-aware); Noise cipher states are never stored in a field, map or global of the DNS registrar; the requester's receive loop queues the payload of every response that parses.",
  "C16": "the watchdog flag is raised only under the comparison of the received message with the heartbeat payload; a slot the accept loop takes from a bounded channel for a handshake is released on every exit of that handshake goroutine; the registered certificate pair is certsFromSeed(PSK)#0 / #1 whichever function fills it.",
  "C18": "phantomLookup answers (false, nil) unless one of the caches had a hit (PhantomIsLive takes any error as a cache answer); liveness.New returns a tester allocated by that call (no registry of earlier testers); Init's wiring rule sees through a constructor-choosing helper.",
